@@ -5,4 +5,5 @@ import "errors"
 var (
 	ErrChainReorg               = errors.New("chain reorganization")
 	ErrUnexpectedCreditNotFound = errors.New("unexpected credit not found")
+	ErrSpentByMinedTx           = errors.New("unmined tx spends a coin already spent by a mined tx")
 )
